@@ -1,5 +1,7 @@
 import GoomVerif.Lemmas.C06L
 import GoomVerif.Model.MethodH
+import GoomVerif.Model.MethodG
+import GoomVerif.Model.InnerFn
 /-! Lemmas about the handle-level model `Model/MethodH.lean` (core Lean only). -/
 namespace C06HL
 open Method (Str Entry Res Ty EKey symIndex getOrCreate structKey bracket objName resolveSM exportMethodName exportStructName)
@@ -159,6 +161,13 @@ theorem lookup_inv {syms N} (entries : List Entry) (s : HState) (l : Look)
     · rw [(cached_frame _ _ _ _).1]; exact hC.1
     · rw [(cached_frame _ _ _ _).2.1]; exact hc.1
     · exact cached_NI _ _ _ _ (by simpa [exportStructName] using hn) h
+  | exportFunc pkg fn =>
+    simp only [lookup]
+    have hn := hN _ rfl
+    refine ⟨⟨?_, ?_⟩, ?_⟩
+    · rw [(cached_frame _ _ _ _).1]; exact hC.1
+    · rw [(cached_frame _ _ _ _).2.1]; exact hC.2
+    · exact cached_NI _ _ _ _ hn h
 
 /-! ### one step keeps the invariants -/
 
@@ -285,6 +294,9 @@ theorem step_inv {syms N} (entries : List Entry) (s : HState) (k : Nat) (st : St
     · split
       · exact SInv_setMk_same s id mk _ hg rfl h
       · exact SInv_armStub s id mk _ hg h
+  | origin hh =>
+    simp only [step]
+    exact SInv_withMk s hh _ h (fun _ _ _ => h)
   | cancel hh =>
     simp only [step]
     exact SInv_withMk s hh _ h (fun id mk _ => SInv_cancelMk s id h)
@@ -469,7 +481,7 @@ theorem shot_sim (syms : List Str) (entries : List Entry) (s : HState) (k : Nat)
     simp only [embed, step, lookup, Method.step, toOld]
     rw [hc.2]
     have ts := tail_sim syms entries { s with exports := (getOrCreate s.exports (pkg, raw) (pkg, bracket raw)).1 }
-      ⟨2, pkg, raw, false, m⟩ true (objName pkg (bracket raw) m) k (by simp [keyName]) hM
+      ⟨2, pkg, raw, false, m⟩ true (objName (Method.symPrefix pkg) (bracket raw) m) k (by simp [keyName]) hM
     refine ⟨ts.1, ts.2.1, ⟨?_, ?_⟩, ts.2.2.2.2⟩
     · rw [ts.2.2.1]; exact hC.1
     · rw [ts.2.2.2.1]; exact hc.1
@@ -490,3 +502,92 @@ theorem run_sim (syms : List Str) (entries : List Entry) : ∀ (steps : List Met
     exact ⟨h2.1, by rw [h2.2]⟩
 
 end C06HL
+
+namespace C06GL
+open Method (Str Entry Res Ty symIndex resolveSM)
+open MethodH (aget)
+open MethodG C06L
+
+/-- a step that does not re-create guard variable `h` keeps what `h` will install -/
+theorem gstep_keeps (syms : List Str) (entries : List Entry) (s : GState) (k h : Nat) (st : GStep) (g : G)
+    (hb : st.binds h = false) (hg : aget s.guards h = some g) :
+    ∃ g', aget (gstep syms entries s k st).1.guards h = some g' ∧ g'.name = g.name ∧ g'.k = g.k := by
+  cases st with
+  | gnew h' t m =>
+    simp only [GStep.binds, decide_eq_false_iff_not] at hb
+    simp only [gstep]
+    split
+    · exact ⟨g, hg, rfl, rfl⟩
+    · split
+      · exact ⟨g, hg, rfl, rfl⟩
+      · exact ⟨g, by simp [aget, hb, hg], rfl, rfl⟩
+  | gapply h' =>
+    simp only [gstep]
+    split
+    · exact ⟨g, hg, rfl, rfl⟩
+    · rename_i g0 hg0
+      split
+      · exact ⟨g, hg, rfl, rfl⟩
+      · by_cases hh : h' = h
+        · subst hh
+          rw [hg] at hg0
+          cases hg0
+          exact ⟨{ g with applied := true }, by simp [aget], rfl, rfl⟩
+        · exact ⟨g, by simp [aget, hh, hg], rfl, rfl⟩
+  | gunpatch h' =>
+    simp only [gstep]
+    split
+    · exact ⟨g, hg, rfl, rfl⟩
+    · split
+      · split
+        · exact ⟨g, hg, rfl, rfl⟩
+        · exact ⟨g, hg, rfl, rfl⟩
+      · exact ⟨g, hg, rfl, rfl⟩
+
+theorem grun_keeps (syms : List Str) (entries : List Entry) : ∀ (steps : List GStep) (s : GState) (k h : Nat) (g : G),
+    (∀ st ∈ steps, st.binds h = false) → aget s.guards h = some g →
+    ∃ g', aget (grun syms entries s k steps).1.guards h = some g' ∧ g'.name = g.name ∧ g'.k = g.k := by
+  intro steps
+  induction steps with
+  | nil => intro s k h g _ hg; exact ⟨g, hg, rfl, rfl⟩
+  | cons st rest ih =>
+    intro s k h g hb hg
+    obtain ⟨g1, h1, hn1, hk1⟩ := gstep_keeps syms entries s k h st g (hb st (by simp)) hg
+    obtain ⟨g2, h2, hn2, hk2⟩ := ih (gstep syms entries s k st).1 (k + 1) h g1 (fun st' hs => hb st' (by simp [hs])) h1
+    exact ⟨g2, by simpa [grun] using h2, hn2.trans hn1, hk2.trans hk1⟩
+
+theorem grun_append (syms : List Str) (entries : List Entry) : ∀ (a b : List GStep) (s : GState) (k : Nat),
+    (grun syms entries s k (a ++ b)).1 = (grun syms entries (grun syms entries s k a).1 (k + a.length) b).1 := by
+  intro a
+  induction a with
+  | nil => intro b s k; simp [grun]
+  | cons st rest ih =>
+    intro b s k
+    simp only [List.cons_append, grun, List.length_cons]
+    rw [ih b _ (k + 1)]
+    congr 2
+    omega
+
+end C06GL
+
+namespace C06IL
+open InnerFn
+
+theorem go_fills (pre : List Ins) (hp : pre.all isFill = true) (rest : List Ins) (cur : Nat) (first : Bool) :
+    go (pre ++ rest) cur false first = go rest (cur + codeLen pre) false (first && pre.isEmpty) := by
+  induction pre generalizing cur first with
+  | nil => simp [codeLen]
+  | cons i r ih =>
+    cases i with
+    | fill n =>
+      simp only [List.all_cons, isFill, Bool.true_and] at hp
+      simp only [List.cons_append, go, Bool.false_eq_true, if_false, codeLen, List.isEmpty_cons, Bool.and_false]
+      rw [ih hp]
+      simp only [Bool.false_and]
+      congr 1
+      omega
+    | call _ => simp [isFill] at hp
+    | int3 => simp [isFill] at hp
+    | prologue => simp [isFill] at hp
+
+end C06IL
